@@ -207,11 +207,16 @@ func scUsers(pt path, n, pool int) func(x *vs.Exec) {
 }
 
 // nowork: the client never delivers a work connection.
-func scNoWork(pt path) func(x *vs.Exec) {
+func scNoWork(pt path, poolCount int) func(x *vs.Exec) {
 	return func(x *vs.Exec) {
 		defer sw.Guard()
 		w := newWorld(x, 5)
-		a := w.MustLogin("a", sw.LoginOpt{})
+		// the client never answers a request for a work connection, not even the advance requests of its pool
+		a, _, err := w.Login("a", sw.LoginOpt{PoolCount: poolCount})
+		if err != nil {
+			vs.Fail("setup: login: %v", err)
+			return
+		}
 		if r := a.Reg(pt.reg("pa")); !strings.HasPrefix(r, "ok") {
 			vs.Fail("setup: %s", r)
 			return
@@ -369,7 +374,9 @@ func scenarios() {
 		case "users3":
 			s.Body = scUsers(paths[f[1]], 3, 0)
 		case "nowork":
-			s.Body = scNoWork(paths[f[1]])
+			s.Body = scNoWork(paths[f[1]], 0)
+		case "nowork3":
+			s.Body = scNoWork(paths[f[1]], 3)
 		case "deadpool":
 			s.Body = scDeadPool
 		case "endwork":
@@ -396,7 +403,7 @@ func main() {
 	}
 	runs := []run{{"pool/p0m5", 1}, {"pool/p1m5", 1}, {"pool/p2m1", 1}, {"pool/p7m5", 1}, {"deadpool", b}, {"endwork", b}}
 	for _, p := range []string{"direct", "group", "tcpmux", "visitor"} {
-		runs = append(runs, run{"users2/" + p, drv.Pick(c, 1, 2)}, run{"nowork/" + p, 1}, run{"closeuser/" + p, b})
+		runs = append(runs, run{"users2/" + p, drv.Pick(c, 1, 2)}, run{"nowork/" + p, 1}, run{"nowork3/" + p, 1}, run{"closeuser/" + p, b})
 	}
 	if !c.Quick() {
 		runs = append(runs, run{"users3/direct", 2}, run{"users3/tcpmux", 2})
